@@ -7,7 +7,7 @@ import re
 from ..gen import queries as G
 from ..oracle.sem import BUILTIN_SIGS
 from .. import mon
-from ..worker import guard, CaseTimeout
+from ..worker import guard, CaseTimeout, jsonable
 from . import c04, c05
 
 PROPERTY = "C19"
@@ -18,8 +18,9 @@ RULE = ("rejected queries of every error class (lexer error tokens, parser expec
         "0 <= err.token.index <= len(query), and the ', line L, column C' suffix of str(err) equals (1 + number of LF before the offset, "
         "offset - offset of the first character of that line) — the convention pinned by the repository's own single-line tests; a lone CR "
         "is accepted under either the LF-only or the universal-newline convention. Non-trivial: >=1 LF before the reported offset; "
-        "distinct by string.")
+        "distinct by string. A concurrent part lets 4-8 threads compile 56 rejected queries (most with the error inside a long string literal) on ONE shared environment with GIL hand-offs injected on lines of the package; every error (class, offset, message with line and column) must equal the one the query gives sequentially.")
 ASSUMPTIONS = ["line = 1-based, column = 0-based, as pinned by tests/test_errors.py and tests/test_cli.py", "CR-only line breaks: either convention accepted"]
+DECIDING_MONITORS_NOTE = "the concurrent part counts as M-compile-rejected events"
 DECIDING_MONITORS = ["M-compile-rejected"]
 
 POS = re.compile(r", line (-?\d+), column (-?\d+)$")
@@ -123,7 +124,9 @@ def check(jp, rec, text, src):
 def plan(tier, seed, nproc, scale):
     shards = nproc if tier == "quick" else nproc * 4
     n = int((60000 if tier == "quick" else 1200000) * scale)
-    return [{"kind": "random", "seed": "%d/%d" % (seed, i), "n": n // shards, "shard": i, "shards": shards} for i in range(shards)]
+    specs = [{"kind": "random", "seed": "%d/%d" % (seed, i), "n": n // shards, "shard": i, "shards": shards} for i in range(shards)]
+    specs += [{"kind": "threads", "seed": "%d/t%d" % (seed, i), "runs": 3 if tier == "quick" else 40} for i in range(4 if tier == "quick" else shards)]
+    return specs
 
 
 NL_BLANKS = ["\n", "\n", "\r\n", "\n\n", " \n", "\n ", "\t", " ", "\r", "\n\t\n"]
@@ -142,9 +145,98 @@ def multiline(R, q, feat):
     return G.render_query(st, q)
 
 
+def rejected_pool(R):
+    """Rejected queries whose error sits at a known-by-sequential-run position: many are errors inside long string literals."""
+    pool = []
+    for i in range(40):
+        pad = "".join(R.choice("abcdefgh \u00e9") for _ in range(R.randint(5, 60)))
+        bad = R.choice(["\x01", "\\z", "\\u12", "\\uD800", "\\uDC00x", "\x1f", "\\ud83d\\u0041", "\\U0041"])
+        lead = R.choice(["$", "$.a", "$\n.a\n", "$..b[0]", "$['k', 'l']\n"])
+        tmpl = R.choice(["%s['%s%s']", "%s[\"%s%s\"]", "%s[?@.a == '%s%s']", "%s[?match(@.a,\n '%s%s')]", "%s['ok', '%s%s']", "%s[?@.x == 'fine' && @.y == \"%s%s\"]"])
+        pool.append(tmpl % (lead, pad, bad))
+    pool += ["$.a[?@.b == 01]", "$[?@.a ==\n 1.]", "$.a.b.c[1:2:3:4]", "$..['a' 'b']", "$[?count(@.a) ]x", "$[?nosuch(@.a)]", "$.a\n.b\n[?length(@.*) == 1]", "$[?@.* == 1]",
+             "$[1, 9007199254740992]", "$.a b", "$[?@.a == 1 &&]", "$[?!1]", "$.a..", "$[?@.a == 'x' ||\n\n @['y\x00']]", "$['\\uDC00']", "$.k.l.m[?search(@, 'a\\u00')]"]
+    return pool
+
+
+def outcome_of(comp, text):
+    try:
+        comp(text)
+        return ("ok",)
+    except Exception as e:  # noqa: BLE001
+        tok = getattr(e, "token", None)
+        try:
+            msg = str(e)
+        except Exception as e2:  # noqa: BLE001
+            msg = "str raises " + type(e2).__name__
+        return (type(e).__name__, getattr(tok, "index", None), msg)
+
+
+def thread_part(jp, rec, R, spec):
+    """Several threads compile rejected queries on ONE shared environment at the same time (GIL hand-offs injected on lines of
+    the package): every error must be the one - class, offset, line and column - that the same query gives sequentially."""
+    import os
+    import sys
+    import threading
+    from jsonpath_rfc9535 import JSONPathEnvironment
+    from .c16 import YieldInjector
+    pkg = os.path.dirname(os.path.abspath(jp.__file__))
+    old_si = sys.getswitchinterval()
+    for run in range(spec["runs"]):
+        pool = rejected_pool(R)
+        seq_env = JSONPathEnvironment()
+        want = {t: outcome_of(seq_env.compile, t) for t in pool}
+        env = JSONPathEnvironment()
+        nthreads = R.choice([4, 6, 8])
+        orders = [R.sample(pool, len(pool)) for _ in range(nthreads)]
+        got = [[] for _ in range(nthreads)]
+        inj = YieldInjector(pkg, "%s/%d" % (spec["seed"], run), R.choice([0.05, 0.2, 0.5]))
+        barrier = threading.Barrier(nthreads)
+
+        def worker(k):
+            barrier.wait()
+            for t in orders[k]:
+                got[k].append((t, outcome_of(env.compile, t)))
+        sys.setswitchinterval(1e-6)
+        inj.start()
+        try:
+            ths = [threading.Thread(target=worker, args=(k,), daemon=True) for k in range(nthreads)]
+            for th in ths:
+                th.start()
+            for th in ths:
+                th.join(120)
+            hung = any(th.is_alive() for th in ths)
+        finally:
+            inj.stop()
+            sys.setswitchinterval(old_si)
+        if hung:
+            rec.timeout("thread run %d did not finish" % run)
+            continue
+        rec.feat("thread-runs")
+        rec.feat("thread-switches-inside-package", inj.switches)
+        rec.extra["switch_sites"] = sorted(set(rec.extra.get("switch_sites", [])) | inj.switch_sites)[:400]
+        bad = None
+        for k in range(nthreads):
+            for t, o in got[k]:
+                rec.monitor("M-compile-rejected")
+                if o != want[t] and bad is None:
+                    bad = (t, o, want[t], k)
+                elif o[0] != "ok" and not (isinstance(o[1], int) and 0 <= o[1] <= len(t)) and bad is None:
+                    bad = (t, o, want[t], k)
+        rec.case(("threads", spec["seed"], run), inj.switches > 0)
+        if bad:
+            t, o, w, k = bad
+            rec.violation("concurrent-compile-error-differs", {"query": t, "threads": nthreads, "observed": jsonable(list(o)), "sequential": jsonable(list(w)),
+                                                               "switches_inside_package": inj.switches})
+    rec.sample({"thread_runs": spec["runs"], "note": "see features thread-switches-inside-package"}, limit=1)
+
+
 def run_shard(spec, rec):
     import jsonpath_rfc9535 as jp
     R = random.Random(spec["seed"])
+    if spec.get("kind") == "threads":
+        thread_part(jp, rec, R, spec)
+        return
     user = c05.make_registry(R, spec)
     sigs = dict(BUILTIN_SIGS)
     sigs.update(user)
@@ -198,6 +290,14 @@ def run_shard(spec, rec):
             rec.case(t, bool(r))
             if r:
                 rec.sample({"query": t, "source": src}, limit=8)
+
+
+def finish(m, tier):
+    sw = m["features"].get("thread-switches-inside-package", 0)
+    m["extra"]["thread_switches_inside_package"] = sw
+    if m["features"].get("thread-runs", 0) and sw == 0:
+        return ["the concurrent part observed no thread switch inside package code"]
+    return []
 
 
 def replay(case, rec):
